@@ -2,6 +2,7 @@ package main
 
 import (
 	"go/types"
+	"strings"
 )
 
 // ---------- contract stubs for the dependency packages (DESIGN 2.4 tier 3) ----------
@@ -194,6 +195,65 @@ func (e *Exec) callCtxMethod(m *ctxMethod, args []Value) Value {
 		return Iface{}
 	}
 	panic(abort("context method " + m.name))
+}
+
+// ---------- local JSON references: "#/definitions/X" ----------
+
+func (e *Exec) refTokens(ref Structure) []string {
+	// jsonreference.Ref{referenceURL, referencePointer{referenceTokens}, ...}
+	jt := e.prog.ImportedPackage("github.com/go-openapi/jsonreference").Type("Ref").Type().Underlying().(*types.Struct)
+	ptr := ref[fieldIndex(jt, "referencePointer")].(Structure)
+	toks, _ := ptr[0].([]Value)
+	var out []string
+	for _, t := range toks {
+		out = append(out, e.strOf(t))
+	}
+	return out
+}
+
+func registerRefStubs() {
+	externals["github.com/go-openapi/jsonreference.New"] = func(e *Exec, c *frame, a []Value) Value {
+		e.run.noteStub("jsonreference.New: local fragment references only (#/a/b): no URL, pointer tokens split on '/'")
+		str := concStr(e, a[0])
+		jt := e.prog.ImportedPackage("github.com/go-openapi/jsonreference").Type("Ref").Type()
+		z := zero(jt).(Structure)
+		st := jt.Underlying().(*types.Struct)
+		if str == "" {
+			return Tuple{z, Iface{}}
+		}
+		if !strings.HasPrefix(str, "#") {
+			panic(abort("jsonreference.New: only local fragment references are modelled: " + str))
+		}
+		var toks []Value
+		for _, t := range strings.Split(strings.TrimPrefix(str, "#"), "/")[1:] {
+			toks = append(toks, t)
+		}
+		ptr := z[fieldIndex(st, "referencePointer")].(Structure)
+		ptr[0] = toks
+		z[fieldIndex(st, "HasFragmentOnly")] = tTrue
+		return Tuple{z, Iface{}}
+	}
+	resolve := func(e *Exec, c *frame, a []Value) Value {
+		e.run.noteStub("spec.ResolveRef: returns the definition named by a local #/definitions/X reference, or an error if it is absent")
+		root, ok := a[0].(Iface).V.(*Value)
+		refp := a[1].(*Value)
+		if !ok || root == nil || refp == nil {
+			return Tuple{(*Value)(nil), e.newError("cannot resolve reference")}
+		}
+		rt := e.specType("Ref").Underlying().(*types.Struct)
+		toks := e.refTokens((*refp).(Structure)[fieldIndex(rt, "Ref")].(Structure))
+		swT := e.specType("Swagger").Underlying().(*types.Struct)
+		if len(toks) == 2 && toks[0] == "definitions" {
+			defs, _ := fieldByName((*root).(Structure), swT, "SwaggerProps", "Definitions").(*Map)
+			if i := defs.find(toks[1]); i >= 0 {
+				v := copyVal(defs.Vals[i])
+				return Tuple{&v, Iface{}}
+			}
+		}
+		return Tuple{(*Value)(nil), e.newError("object has no key \"" + strings.Join(toks, "/") + "\"")}
+	}
+	externals["github.com/go-openapi/spec.ResolveRef"] = resolve
+	externals["github.com/go-openapi/spec.ResolveRefWithBase"] = resolve
 }
 
 func registerCtxStubs() {
